@@ -3,6 +3,7 @@ import ast
 
 from .. import mirror, tables
 from ..flow import GuardMap, Walker, World
+from ..specialise import flat
 from ..model import AnalysisError, norm
 from .c06 import kinds_and_methods, enums, PCV
 from .common import dep_closure, names_in, guard_requires
@@ -293,6 +294,7 @@ def mirrors(run, p):
     for a, b in pairs:
         fa = p.method(*a.split('.')) if a.count('.') == 1 and a[0].isupper() else p.fn(a)
         fb = p.method(*b.split('.')) if b.count('.') == 1 and b[0].isupper() else p.fn(b)
+        fa, fb = flat(p, fa), flat(p, fb)
         ta, tb = body_tokens(fa), body_tokens(fb)
         if fa.name.startswith('fuzz_'):
             # the sign test `v >= 0` stays; 1 - epsilon <-> 1 + epsilon
